@@ -540,6 +540,53 @@ def check_sentinel(cx, chk):
     chk.floor("C10.sentinel", "leftrec wrappers", n, 2)
 
 
+def check_look(cx, chk):
+    """Lookaheads consume nothing and a *succeeding* lookahead contributes nothing to the
+    furthest-failure bookkeeping: its Ok carries exactly the entry state."""
+    n = 0
+    for inst in cx.instances():
+        for p, f in sorted(inst.fns.items()):
+            if "mir" not in f or f["kind"] != "Fn":
+                continue
+            b = cx.body(inst.crate, p)
+            inner = [(i, t) for i, t in b.calls() if not t["func"].get("indirect")
+                     and re.search(r"::(negative|positive)_lookahead::parse$", mir.strip_generics(t["func"]["path"]))
+                     and mir.strip_generics(t["func"]["path"]).rsplit("::", 2)[0] == mir.strip_generics(p).rsplit("::", 1)[0]]
+            neg_role = any(st["rv"].get("variant") == "NegativeLookaheadFailed" for i in b.reach for st in b.blocks[i]["stmts"]
+                           if st["k"] == "assign" and st["rv"]["k"] == "agg")
+            if not inner and not neg_role:
+                continue
+            n += 1
+            rest = p[len(inst.prefix) + 2:]
+            tag = "%s/%s" % (inst.name, re.sub(r"\d+", "N", rest))
+            kind = "negative" if neg_role else "positive"
+            probs = []
+            for d in b.defs.get(0, []):
+                if d[2] != "rv":
+                    continue
+                e = norm(b.expr_rv(d[3]))
+                if e[0] == "agg" and e[2] == "Ok":
+                    po = e[3][0][1]
+                    st = dict(po[3]).get("state") if po[0] == "agg" else None
+                    if st != ("param", 1):
+                        probs.append("a succeeding %s lookahead returns %s instead of the untouched entry state (it must consume nothing "
+                                     "and attempts inside it must not enter the furthest-failure bookkeeping)" % (kind, mir.show(st) if st else mir.show(po)))
+                if e[0] == "agg" and e[2] == "Err" and neg_role:
+                    pe = e[3][0][1]
+                    if not (is_call(pe, "report_error") and pe[2][0] == ("param", 1)):
+                        probs.append("a failing negative lookahead does not report on the entry state: %s" % mir.show(pe))
+            for (i, t) in inner:
+                a0 = norm(b.expr_op(t["args"][0]))
+                if not (is_call(a0, "clone") and a0[2][0] == ("param", 1)):
+                    probs.append("the lookahead body is not started from a clone of the entry state: %s" % mir.show(a0))
+            if probs:
+                for pr in probs:
+                    chk.violation("C10.look", "%s %s" % (tag, pr.split(" returns ")[0][:50]), pr, cx.site(b))
+            else:
+                chk.ok("C10.look", "%s/%s" % (inst.name, rest), {"fn": "%s/%s" % (inst.name, rest), "kind": kind, "ok_state": "entry state"})
+    chk.floor("C10.look", "lookahead functions", n, 12)
+
+
 def run(cx, chk):
     chk.explanation = (
         "Error discipline decided on every path of every generated function and runtime helper: each ParseResult / ParseError "
@@ -555,3 +602,4 @@ def run(cx, chk):
     check_choice(cx, chk)
     check_at(cx, chk)
     check_sentinel(cx, chk)
+    check_look(cx, chk)
